@@ -86,10 +86,12 @@ func (s *sequencer) bumpEpoch() bool {
 	s.mu.Lock()
 	defer s.mu.Unlock()
 	if s.currentEpoch == ^uint16(0) {
+		vtrace("seq.exhausted", uint64(s.currentEpoch), 0, 0)
 		return false
 	}
 	s.currentEpoch++
 	s.seqCounter = 0
+	vtrace("seq.bump", uint64(s.currentEpoch), 0, 0)
 	return true
 }
 
